@@ -269,6 +269,10 @@ class Interp(object):
         self.bind_params(fr, fi, args, kwargs, node)
         is_gen = _is_generator(fi)
         self.frames.append(fr)
+        nested_gen = is_gen and len(self.frames) > 1
+        if nested_gen:
+            fr.collected = []
+        ev_mark = len(self.events)
         self.emit('enter', node or fi.node, {'callee': fi, 'locals': dict(fr.locals)})
         try:
             try:
@@ -282,6 +286,16 @@ class Interp(object):
                 raise
         finally:
             self.frames.pop()
+        if nested_gen:
+            # a generator called by the analysed code itself: its body is run to completion here and the caller
+            # iterates over the collected values (sound only when the body has no effects to interleave)
+            for ev in self.events[ev_mark:]:
+                if ev.kind.startswith('stream-') or ev.kind in ('mutate', 'item-store', 'attr-store', 'item-del'):
+                    if ev.kind == 'attr-store' and getattr(ev.data.get('obj'), 'fresh', False):
+                        continue
+                    raise AnalysisError('generator %s has effects that would interleave with its consumer (lazy evaluation not modelled)' % fi.short)
+            from sa.values import AIter
+            return AIter(fr.collected)
         if is_gen and result is None:
             result = Unk('generator:%s' % fi.short, kinds=['obj'])
         return result
@@ -828,7 +842,22 @@ class Interp(object):
 
     def ex_Yield(self, e):
         v = self.eval(e.value) if e.value is not None else None
-        self.emit('yield', e, {'value': v})
+        fr = self.frames[-1]
+        if getattr(fr, 'collected', None) is not None:
+            fr.collected.append(v)
+            self.emit('yield-nested', e, {'value': v})
+        else:
+            self.emit('yield', e, {'value': v})
+        return None
+
+    def ex_YieldFrom(self, e):
+        for v in self.models.iterate(self, self.eval(e.value), e):
+            fr = self.frames[-1]
+            if getattr(fr, 'collected', None) is not None:
+                fr.collected.append(v)
+                self.emit('yield-nested', e, {'value': v})
+            else:
+                self.emit('yield', e, {'value': v})
         return None
 
     def ex_ListComp(self, e):
